@@ -16,6 +16,7 @@ CONSTANTS
   CancelCalls = {}
   EnvTClose = FALSE
   OrderedStart = TRUE
+  Eager = FALSE
   WithHist = FALSE
 VIEW ViewNoHist
 INVARIANTS AttemptsBounded
